@@ -246,6 +246,7 @@ fn main() {
         let v: serde_json::Value = serde_json::from_slice(&std::fs::read(&file).expect("read")).expect("json");
         let hist: Vec<Op> = serde_json::from_value(v["replay"]["history"].clone()).expect("history");
         let start = v["replay"]["start"].as_u64().unwrap_or(0) as u8;
+        vdb::fixture::set_config_variant(v["replay"]["config"].as_u64().unwrap_or(0) as u8);
         let r = run_history(idx_for(idx, start), &prelude(start), &hist, true);
         for (sig, msg) in r.problems {
             run.violation(Violation {
@@ -353,6 +354,50 @@ fn main() {
             break; // shortest counterexamples first
         }
     }
+    // ---- storage configuration variants (compression on; cache disabled / tiny byte-bounded
+    // cache): every history to depth 2 from the empty and from the preloaded start state
+    if property == "C02" && run.violation_count() == 0 {
+        let ops_ref = &ops;
+        for variant in [1u8, 2] {
+            for &start in &[0u8, 1] {
+                let pre = prelude(start);
+                let mut hists: Vec<Vec<Op>> = ops.iter().map(|o| vec![o.clone()]).collect();
+                for a in ops_ref {
+                    for b in ops_ref {
+                        hists.push(vec![a.clone(), b.clone()]);
+                    }
+                }
+                let total = hists.len();
+                let results = util::par_map(hists, threads, |hist| {
+                    if Instant::now() > deadline {
+                        return None;
+                    }
+                    vdb::fixture::set_config_variant(variant);
+                    let r = run_history(idx_for(idx, start), &pre, &hist, true);
+                    vdb::fixture::set_config_variant(0);
+                    Some((hist, r))
+                });
+                let mut done = 0usize;
+                for (hist, r) in results.into_iter().flatten() {
+                    done += 1;
+                    run.add("executions", 1);
+                    run.add("config_variant_histories", 1);
+                    run.add("transitions", r.steps);
+                    run.add("evaluations", r.compares);
+                    for (sig, msg) in r.problems {
+                        run.violation(Violation {
+                            signature: format!("{property}|hist|config{variant}|{sig}"),
+                            summary: format!("storage configuration variant {variant}, start {start}, history {hist:?}: {msg}"),
+                            replay: json!({"history": hist, "start": start, "config": variant}),
+                        });
+                    }
+                }
+                if done < total {
+                    run.cap_hit(&format!("time budget inside the configuration-variant pass: variant {variant} start {start}: {done}/{total}"));
+                }
+            }
+        }
+    }
     let states = run.distinct_count() as u64;
     run.add("states", states);
     let ex = run.get("executions");
@@ -363,6 +408,6 @@ fn main() {
         "every history of length 1..={completed_depth} from the empty collection, and one level less from a start state with two flushed documents sharing a non-unique key and (C02) from the empty collection with the two composite unique indexes (age,opt) and (opt,opt2) added, over the {}-operation alphabet (accepted and rejected writes, flush, compaction, clean reopen, index create+backfill/removal through the open callback) executed on a fresh database; states = distinct final (documents, index set) model states; a history is non-trivial when it ran to the end",
         ops.len()
     ));
-    run.assume("sequential histories on one handle; documents from 6 templates, 14 update templates");
+    run.assume("sequential histories on one handle; documents from 6 templates, 14 update templates; main search with compression off and the default cache, every history to depth 2 again with zstd level 3 + cache disabled and with zstd level 1 + a 300-byte cache");
     run.finish();
 }
